@@ -12,7 +12,8 @@ from .common import EPS, viol
 ID = "C08"
 LEVEL = "fault_enumeration"
 BATCH = 16
-RULE = ("Enumerated: ALL 256 exception codes x {read, write, write-multi} x {udp-rtu, tcp} x k dropped transmissions "
+RULE = ("(Also: the same with ANOTHER CALLER queued on the object whose own request is never answered - the rejected "
+        "request must still end at the instant the exception frame arrives.)  Enumerated: ALL 256 exception codes x {read, write, write-multi} x {udp-rtu, tcp} x k dropped transmissions "
         "before the exception frame (k in the tier's range) x keep-alive (thorough: both; quick: alternating) x "
         "(timeout, retries), the earlier transmissions being lost or answered by a lone first fragment whose missing "
         "tail is exactly as long as the exception frame; the exception frame answers transmission k+1 with a delay drawn from {prompt, mid, just "
@@ -68,6 +69,14 @@ def _space(tier):
                 for code in (list(range(256)) if tier == "thorough" else [1, 2, 3, 4, 6, 11, 0x80]):
                     for ka in (False, True):
                         out.append(("exc", tr, 0, k, code, ka, "stray_frag"))
+        # another caller is queued on the same object (its own request will never be answered): the rejected request
+        # must still fail at the instant the exception frame arrives
+        for tr in ("udp", "tcp"):
+            for ci in range(len(CMDS)):
+                for k in (0, 1):
+                    for code in (list(range(256)) if tier == "thorough" else [1, 2, 3, 4, 6, 11, 0x80]):
+                        for ka in (False, True):
+                            out.append(("exc", tr, ci, k, code, ka, "queued_caller"))
         for tr in ("udp", "tcp"):
             for ka in (False, True):
                 out.append(("texts", tr, ka))
@@ -141,17 +150,25 @@ def run_exc(case):
                                                                 {"what": "exc", "code": code, "d": d}]}]
     else:
         faults = pre + [{"k": "exc", "code": code, "d": d}]
+    queued = case.get("prior") == "queued_caller"
     world = World(max_steps=20_000)
-    world.net.begin_script(faults, {"k": "ok"})
+    world.net.begin_script(faults, {"k": "drop"} if queued else {"k": "ok"})
     dev = SimInverter(mode="stamp")
     world.net.add_device(C.HOST, C.port_of(tr), dev)
     proto = C.make_protocol(tr, tau, r, case["keep_alive"])
     state = {}
 
+    async def other():
+        await asyncio.sleep(EPS)
+        state["other"] = await C.do_execute(world, proto, {"op": "read", "reg": 61000, "count": 1}, "other")
+
     async def main():
+        t = asyncio.ensure_future(other()) if queued else None
         state["rec"] = await C.do_execute(world, proto, case["cmd"], "req")
         state["ntx_at_return"] = world.net.n_tx
         await asyncio.sleep((r + 2) * tau)
+        if t is not None:
+            await t
 
     status, _ = C.run_world(world, main())
     violations = []
@@ -171,12 +188,20 @@ def run_exc(case):
         if not dls:
             violations.append(viol(f"C08:no-delivery:{tr}", "exception frame was not delivered"))
         elif rec["t1"] != dls[-1]["t_run"]:
-            violations.append(viol(f"C08:not-at-once:{tr}:{op}",
-                                   f"exception frame delivered at {dls[-1]['t_run']}, request ended at {rec['t1']}"))
-        if state["ntx_at_return"] != k + 1:
+            q = f":{'ka' if case['keep_alive'] else 'noka'}:queued-caller" if queued else ""
+            violations.append(viol(f"C08:not-at-once:{tr}:{op}{q}",
+                                   f"exception frame delivered at {dls[-1]['t_run']}, request ended at {rec['t1']}"
+                                   + (" (another caller's request was waiting for the lock)" if queued else "")))
+        other_reg = bytes((61000 >> 8, 61000 & 0xFF))
+        own = [t for t in net.transmissions if (t["data"][8:10] if tr == "tcp" else t["data"][2:4]) != other_reg]
+        if queued:
+            if len(own) != k + 1:
+                violations.append(viol(f"C08:tx-count:{tr}:{op}",
+                                       f"{len(own)} transmissions before the rejection, expected {k + 1}"))
+        elif state["ntx_at_return"] != k + 1:
             violations.append(viol(f"C08:tx-count:{tr}:{op}",
                                    f"{state['ntx_at_return']} transmissions before the rejection, expected {k + 1}"))
-        if net.n_tx != state["ntx_at_return"]:
+        if not queued and net.n_tx != state["ntx_at_return"]:
             violations.append(viol(f"C08:retransmit-after:{tr}:{op}",
                                    f"{net.n_tx - state['ntx_at_return']} transmissions after the rejection"))
     sig = (tr, op, code, k, case["delay"], case["keep_alive"], case.get("prior"))
